@@ -612,9 +612,17 @@ func remapBlockHandles(block Block, handleMap []ExpressionHandle) {
 	for i := range block {
 		switch k := block[i].Kind.(type) {
 		case StmtEmit:
-			// Remap emit range
+			// Remap emit range. End is exclusive: when the range reaches the end of the old
+			// arena there is no handleMap entry for it, so derive it from the last covered
+			// expression (the rebuilt arena may have grown in front of it).
+			end := k.Range.End
+			if int(end) >= len(handleMap) && end > k.Range.Start {
+				end = remap(end-1) + 1
+			} else {
+				end = remap(end)
+			}
 			k.Range.Start = remap(k.Range.Start)
-			k.Range.End = remap(k.Range.End)
+			k.Range.End = end
 			block[i].Kind = k
 		case StmtStore:
 			k.Pointer = remap(k.Pointer)
